@@ -9,6 +9,7 @@
 #include <cstdint>
 #include <iostream>
 #include <map>
+#include <optional>
 #include <memory>
 #include <regex>
 #include <sstream>
@@ -104,6 +105,15 @@ struct Session : ISession {
     R router;
     std::map<long, std::unique_ptr<USubscription>> handles;
     std::vector<std::string> log;
+    // callers keep RoutingKey objects around and assign new keys to them: two calls out of three use ONE long-lived key object
+    // that is copy-assigned in place (same object, same level storage, different content), the third a fresh temporary
+    std::optional<RoutingKey> reused;
+    unsigned keyUses = 0;
+    const RoutingKey &callerKey(const RoutingKey &fresh) {
+        if (++keyUses % 3 == 0) return fresh;
+        if (!reused) reused.emplace(fresh); else *reused = fresh;
+        return *reused;
+    }
 
     template<size_t... I>
     size_t callNotify(const RoutingKey &key, const std::vector<std::string> &parts, std::index_sequence<I...>) {
@@ -142,15 +152,16 @@ struct Session : ISession {
             return "ok";
         }
         if (o == "notify") {
-            RoutingKey key = buildKey(t.at(1));
+            RoutingKey fresh = buildKey(t.at(1));
+            const RoutingKey &key = callerKey(fresh);
             log.clear();
             size_t n = callNotify(key, splitArg(t.at(2), sizeof...(Args)), std::index_sequence_for<Args...>{});
             std::string r = "n=" + std::to_string(n);
             for (auto &e : log) r += " " + e;
             return r;
         }
-        if (o == "shrink") { router.shrink(buildKey(t.at(1))); return "ok"; }
-        if (o == "exists") { return router.exists(buildKey(t.at(1))) ? "b=1" : "b=0"; }
+        if (o == "shrink") { RoutingKey fresh = buildKey(t.at(1)); router.shrink(callerKey(fresh)); return "ok"; }
+        if (o == "exists") { RoutingKey fresh = buildKey(t.at(1)); return router.exists(callerKey(fresh)) ? "b=1" : "b=0"; }
         if (o == "depth") { return "n=" + std::to_string(router.depth()); }
         if (o == "snap") {
             std::vector<std::string> names;
